@@ -22,7 +22,7 @@ SIG_CLEANUP_UNUSED = "PoolSum.cleanup:unused-index-dropped-changes-multiplicity"
 # ---- configuration text ----------------------------------------------------------------
 def pool_cfg(*, init="PoolInit", maps="PoolMaps", pairs="PoolPairs", ctxs="NoTerms", vary=True,
              max_ops=1, max_depth=4, nest_anytime=False, leafs=("x",), idxs=("i", "j"), vals=("1",), poolset="PoolsSmall",
-             max_idx=2, max_inner_idx=1, dev="DevNone", check=True):
+             max_idx=2, max_inner_idx=1, dev="DevNone", check=True, full_quantification=False):
     s = lambda xs: "{" + ", ".join(f'"{x}"' for x in xs) + "}"
     cfg = f"""SPECIFICATION Spec
 CONSTANTS
@@ -56,7 +56,14 @@ CHECK_DEADLOCK FALSE
 """
     if check:
         cfg += "INVARIANT InvLaws\nINVARIANT InvWellFormed\nINVARIANT InvFree\nPROPERTY StutterProp\nPROPERTY ValueProp\nPROPERTY FreeProp\n"
+    if full_quantification:
+        cfg += FULL_QUANTIFICATION
     return cfg
+
+
+# every law for every map of the configuration in every reachable state (small configurations)
+FULL_QUANTIFICATION = ("INVARIANT InvDerived\nINVARIANT InvSubstEvalAll\nINVARIANT InvBoundIdentAll\nINVARIANT InvHomomorphismAll\n"
+                       "INVARIANT InvCleanup\nINVARIANT InvDoitIdem\n")
 
 
 _COV = re.compile(r"^<(\w+) line (\d+), col \d+ to line \d+, col \d+ of module (\w+)(?: \((\d+) [^)]*\))?>: (\d+):(\d+)", re.M)
